@@ -1,0 +1,82 @@
+//go:build verif
+
+// Contracts for the Word -> Markdown exporter (property C20, export half), read by /verif/engine (govc).
+// Comments only: with or without the build tag this file adds no code to the package.
+package markdown
+
+// Ghost sequence "exported": the body elements whose Markdown has been appended to the output, in order.
+// writeParagraph / writeTable append their element's Markdown to w.output (a strings.Builder, append only);
+// that each call contributes exactly its own element is the assumption stated by the `emits` clauses.
+//@ spec isPT(x any) bool = typeIs(x, "*document.Paragraph") || typeIs(x, "*document.Table")
+//@ spec ptCount(es []any, j int) int = ite(j <= 0, 0, ptCount(es, j - 1) + ite(isPT(es[j-1]), 1, 0))
+
+//@ func (*MarkdownWriter).writeParagraph
+//@ props C20
+//@ requires w != nil && w.opts != nil && para != nil
+//@ emits exported para
+
+//@ func (*MarkdownWriter).writeTable
+//@ props C20
+//@ requires w != nil && w.opts != nil && table != nil
+//@ emits exported table
+//@ loop 3
+//@   invariant 1 <= i
+
+// Write exports every paragraph and table of the body, each exactly once, in body order (when no element
+// fails, or errors are ignored).
+//@ func (*MarkdownWriter).Write
+//@ props C20
+//@ requires w != nil && w.opts != nil && w.doc != nil
+//@ requires w.doc.Body == nil || (forall j int :: 0 <= j && j < len(w.doc.Body.Elements) ==> ref(w.doc.Body.Elements[j]) != nil)
+//@ ensures err == nil && old(w.doc.Body) != nil ==> evCount("exported") == old(evCount("exported") + ptCount(w.doc.Body.Elements, len(w.doc.Body.Elements)))
+//@ ensures err == nil && old(w.doc.Body) != nil ==> forall j int :: 0 <= j && j < old(len(w.doc.Body.Elements)) && old(isPT(w.doc.Body.Elements[j])) ==> ref(evAt("exported", old(evCount("exported") + ptCount(w.doc.Body.Elements, j)))) == old(ref(w.doc.Body.Elements[j]))
+//@ ensures err == nil && old(w.doc.Body) == nil ==> evCount("exported") == old(evCount("exported"))
+//@ loop 1
+//@   invariant 0 <= #i && #i <= old(len(w.doc.Body.Elements)) && w != nil && w.opts != nil
+//@   invariant evCount("exported") == old(evCount("exported") + ptCount(w.doc.Body.Elements, #i))
+//@   invariant forall j int :: 0 <= j && j <= #i ==> 0 <= old(ptCount(w.doc.Body.Elements, j))
+//@   invariant forall j int :: 0 <= j && j < #i && old(isPT(w.doc.Body.Elements[j])) ==> old(ptCount(w.doc.Body.Elements, j)) < evCount("exported") - old(evCount("exported"))
+//@   invariant forall j int :: 0 <= j && j < #i && old(isPT(w.doc.Body.Elements[j])) ==> ref(evAt("exported", old(evCount("exported") + ptCount(w.doc.Body.Elements, j)))) == old(ref(w.doc.Body.Elements[j]))
+//@   decreases old(len(w.doc.Body.Elements)) - #i
+
+// Text of a paragraph: every run contributes its formatted text exactly once, in run order.
+// codeS: the run uses one of the monospace fonts the exporter treats as inline code (strings.Contains is an
+// uninterpreted pure function of its two arguments).
+//@ spec codeS(p *document.RunProperties) bool = p.FontFamily != nil && (strings.Contains(p.FontFamily.ASCII, "Consolas") || strings.Contains(p.FontFamily.ASCII, "Courier New") || strings.Contains(p.FontFamily.ASCII, "Monaco") || strings.Contains(p.FontFamily.ASCII, "Menlo") || strings.Contains(p.FontFamily.ASCII, "Source Code Pro"))
+
+//@ func (*MarkdownWriter).isCodeStyle
+//@ props C20
+//@ requires props != nil
+//@ modifies nothing
+//@ ensures result == codeS(props)
+//@ loop 1
+//@   invariant 0 <= #i && #i <= 5 && unchangedHeap() && props.FontFamily != nil && len(codefonts) == 5
+//@   invariant codefonts[0] == "Consolas" && codefonts[1] == "Courier New" && codefonts[2] == "Monaco" && codefonts[3] == "Menlo" && codefonts[4] == "Source Code Pro"
+//@   invariant forall k int :: 0 <= k && k < #i ==> !strings.Contains(font, codefonts[k])
+//@   decreases 5 - #i
+
+// fmtRun: the Markdown formatRunText produces for one run: bold/italic markers, then strike-through, then code.
+//@ spec wrapEmph(text string, bold bool, italic bool, em string) string = ite(bold, ite(italic, "***" + text + "***", "**" + text + "**"), ite(italic, em + text + em, text))
+//@ spec wrapStrike(text string, strike bool) string = ite(strike, "~~" + text + "~~", text)
+//@ spec wrapCode(text string, code bool) string = ite(code, "`" + text + "`", text)
+//@ spec fmtRun(w *MarkdownWriter, run *document.Run) string = ite(run == nil || run.Text.Content == "", "", ite(run.Properties == nil, run.Text.Content, wrapCode(wrapStrike(wrapEmph(run.Text.Content, run.Properties.Bold != nil, run.Properties.Italic != nil, w.opts.EmphasisMarker), run.Properties.Strike != nil), codeS(run.Properties))))
+
+//@ func (*MarkdownWriter).formatRunText
+//@ props C20
+//@ requires w != nil && w.opts != nil
+//@ modifies nothing
+//@ ensures result == fmtRun(w, run)
+
+// runsCat(w, rs, j): concatenation of fmtRun over the first j runs.
+//@ spec runsCat(w *MarkdownWriter, rs []document.Run, j int) string = ite(j <= 0, "", runsCat(w, rs, j - 1) + fmtRun(w, &rs[j-1]))
+
+//@ func (*MarkdownWriter).extractParagraphText
+//@ props C20
+//@ requires w != nil && w.opts != nil
+//@ modifies nothing
+//@ ensures para == nil ==> result == ""
+//@ ensures para != nil ==> result == old(runsCat(w, para.Runs, len(para.Runs)))
+//@ loop 1
+//@   invariant 0 <= #i && #i <= len(para.Runs) && unchangedHeap() && para != nil
+//@   invariant sbContent(result) == old(runsCat(w, para.Runs, #i))
+//@   decreases len(para.Runs) - #i
